@@ -152,7 +152,9 @@ class Engine(ExprMixin, CallMixin, ContractMixin, BuiltinMixin, StmtMixin, LoopM
         if skolems:
             # engine-side instantiation: every universally quantified fact of the path condition is
             # instantiated at the skolem constants of the goal (valid instances; the facts stay too)
-            terms = list(skolems) + [q - 1 for q in skolems]  # index-shifted instances (insert / pop shift by one)
+            terms = list(skolems)
+            if getattr(self, "needs_shifted_instances", False):
+                terms += [q - 1 for q in skolems]  # index-shifted instances (a general list.insert shifts by one)
             for h in list(pc):
                 if z3.is_quantifier(h) and h.is_forall() and h.num_vars() == 1 and h.var_sort(0) == z3.IntSort():
                     pc.append(_instances(h, terms, 0))
